@@ -117,7 +117,7 @@ Init ==
   /\ pc = "idle" /\ cyc = NoCyc /\ now = 0
   /\ bud = [edits |-> 0, fails |-> 0, kills |-> 0, stops |-> 0, deletes |-> 0, foreign |-> 0, toggles |-> 0,
             relists |-> 0, holds |-> 0]
-  /\ gh = [succ |-> [h \in H |-> 0], seen |-> [h \in H |-> 0], deldone |-> {}, early |-> FALSE,
+  /\ gh = [succ |-> [h \in H |-> 0], seen |-> [h \in H |-> 0], deldone |-> {}, delagain |-> FALSE, early |-> FALSE,
            touched |-> FALSE, resumed |-> [h \in H |-> 0], badinv |-> "none", foreignlost |-> FALSE,
            reverted |-> FALSE, leftunmatched |-> FALSE, staleview |-> FALSE,
            ownrv |-> 0, owntime |-> 0, blindwrite |-> FALSE, cseen |-> [h \in H |-> 0], f8 |-> FALSE,
@@ -413,6 +413,8 @@ GhAfter(h, q, k) ==
              !.seen[h] = IF q.st = "succ" THEN cyc.s.ess ELSE @,
              !.cseen[h] = IF q.st = "succ" THEN cyc.s.ess ELSE @,
              !.deldone = IF cyc.reason = "delete" /\ Finished(q) THEN @ \cup {h} ELSE @,
+             \* F9: a deletion handler that had finished in an earlier, closed deletion cycle is run again (the object is still held)
+             !.delagain = @ \/ (cyc.reason = "delete" /\ h \in gh.deldone),
              !.resumed[h] = IF "resume" \in HC[h].reasons /\ HC[h].reasons = {"resume"} /\ Finished(q) THEN @ + 1 ELSE @]
 InvokeTimeout(h) ==
   /\ up /\ pc = "plan" /\ cyc.plan # <<>> /\ Head(cyc.plan) = h /\ TimedOut(h, cyc.np[h])
@@ -728,6 +730,9 @@ Family_F22 == gh.leftunmatched    \* the object stopped matching the handlers' f
 \* a change that lands while an earlier handler's progress is being stored is absorbed into the last-handled state at the
 \* close of the cycle: that handler has completed against an older state and is never invoked for the newer one
 Family_F8 == gh.f8
+\* F9: the deletion cycle is closed (records purged) while the object stays held for a daemon / timer that is still stopping; every
+\* further event starts the deletion handlers anew -- with more than one step per cycle, as fast as the API answers
+Family_F9 == gh.delagain
 Family_F31 == obj.exists /\ Released /\ \E h \in H : obj.prog[h] # NoRec
 TerminalConverged == Terminal => (Converged \/ Family_F20 \/ Family_F21 \/ Family_F22 \/ Family_F31)
 Witness_F20 == ~(Terminal /\ ~Converged /\ Family_F20 /\ ~Family_F21 /\ ~Family_F22)
